@@ -39,6 +39,7 @@ def run(ctx):
     ctx.trusted_base += [
         "tools/gofacts c05.go: the guard tables of the message validation (minimum parameter counts, required hex widths, required JSON kinds per notify slot) and the parameter index every getter reads, regenerated from stratumv1_message/*.go into Gen/C05.lean",
         "harness harness/proxy/verif_c05_test.go: (1) every hostile line through the real ParseStratumMessage with the decoded shape in the transcript; the Lean side recomputes the verdict from the shape (2) every hostile line in six phases, and every sequence of up to four well-formed requests (configure / subscribe / authorize / submit, a subscribe whose answer is late) in arbitrary protocol order, (first line, mid-handshake from miner / pool, mining from miner / active pool / parked pool) through the real Proxy next to a second connection; a panic in any goroutine kills the process and is the violation",
+        "multi-step histories: the random sessions of the session harness (well-formed events only) run here too; a process crash in them is a C05 violation with the session as replay",
         "modelled, not verified: encoding/json decoding of a line into the message structs (the harness hands the Lean side the decoded shape); process liveness is observed, not proved",
     ]
     ctx.assumptions += ["Go runtime faults outside the modelled code (out of memory on a gigabyte line: bufio.ReadBytes is unbounded) are not exhibited"]
@@ -86,7 +87,18 @@ def run(ctx):
         seen.add(sig)
         L.violation(ctx, sig, body[5:], {"clause": body[5:], "case": case, "ops": [l for l in allcases.get(case, []) if l.startswith("> ")],
                                         "how_to_replay": "bin/check C05 --replay <this file>"})
+    # 3. histories of well-formed events (random sessions: pools repeating job ids, switches, mined and late shares, changes
+    # from parked pools): no sequence of them may stop the process either — a crash here needs several steps (a pool
+    # announcing a job id twice, then a switch back to it)
+    sess_cases = 0
+    rc, out = L.run_harness(ctx, exe, "TestVerifSession$", env={"VERIF_N": 200 if quick else 3000, "VERIF_MAXOPS": 30 if quick else 60, "VERIF_FLUSH": 1}, timeout=1700)
+    if rc != 0:
+        if not L.crash_violation(ctx, "sess.impl.txt", out, "c05"):
+            ctx.tie_failures.append("session harness run failed (rc=%d): %s" % (rc, out[-300:]))
+    else:
+        sess_cases = len(L.parse_cases(ctx.out + "/sess.impl.txt"))
     ctx.coverage.update({
+        "sessions_of_wellformed_events": sess_cases,
         "evaluations": sum(len([l for l in ls if l.startswith("> ")]) for h, ls in pcases) + total,
         "distinct_nontrivial": total,
         "rule": "hostile lines: every method x params in {absent, null, number, string, object, [], bool} and arrays of 1..arity+1 uniform elements from 13 element kinds; well-shaped submit / notify / set_version_mask / set_extranonce / configure with one field mutated over 15 hex mutations (empty, odd, short, long, non-hex, upper case, 62..130 digits) and JSON kind swaps; 10 id shapes; results with 17 result shapes x 6 error shapes under pending and unknown ids; non-JSON / truncated / duplicate-key / upper-case-key lines; plus seeded compositions. Each line through the parser, and (every third line x phase in the quick tier, all in the thorough tier) in six phases through a real Proxy with a second connection in the same process. Non-trivial: every session case",
